@@ -97,6 +97,17 @@ def sub_case(name, sc, seed, maxc, exclude, variant):
                 q, u = wr.query(X.copy(), y.copy(), candidates=None if cand is None else np.array(cand),
                                 batch_size=conc["batch_size"], return_utilities=True, **kw)
         q, u = np.asarray(q), np.asarray(u, dtype=float)
+        # the same call without utilities (the default of query) on a fresh wrapper / wrapped strategy of the same
+        # seed: the returned indices must be the same ones, in the caller's index space
+        wr0 = SubSamplingWrapper(entry.make(seed, np.nan, (0, 1)), max_candidates=maxc, exclude_non_subsample=exclude,
+                                 random_state=seed)
+        with warnings.catch_warnings():
+            warnings.simplefilter("ignore")
+            with np.errstate(all="ignore"):
+                q0 = wr0.query(X.copy(), y.copy(), candidates=None if cand is None else np.array(cand),
+                               batch_size=conc["batch_size"], return_utilities=False,
+                               **zoo.model_kwargs(entry, np.nan, (0, 1), seed=seed, variant=variant))
+        q0 = [int(j) + 1 for j in np.asarray(q0).ravel()]
         ikw, ires = spy.calls[-1]
         iq, iu = np.asarray(ires[0]), np.asarray(ires[1], dtype=float)
         iX, icand = np.asarray(ikw["X"]), ikw["candidates"]
@@ -129,7 +140,7 @@ def sub_case(name, sc, seed, maxc, exclude, variant):
             allr = ranks_with_inf(list(irows) + [r for r in u])
             k = len(irows)
             events = [{"ev": "Inner", "S": sorted(S), "q": iq_c, "rows": allr[:k], "rank": []},
-                      {"ev": "OuterSub", "q": [int(j) + 1 for j in q], "rows": allr[k:]}]
+                      {"ev": "OuterSub", "q": [int(j) + 1 for j in q], "rows": allr[k:], "qplain": q0}]
     except Exception as ex:
         events = [{"ev": "Raised", "exc": "%s: %s" % (type(ex).__name__, str(ex)[:160])}]
     return dict(base, events=events)
